@@ -179,7 +179,12 @@ def observe(job):
     if job.get('first') is not None:
         on, on_arg, inputs, renames, defaults, _ = render(job['first'], form, rng)
         f0, _calls0 = make_f(len(names), sig(defaults))
-        res1 = perdictable(f0, on=on_arg, renames=renames or None, defaults=dargs(defaults))(**inputs)
+        try:
+            res1 = perdictable(f0, on=on_arg, renames=renames or None, defaults=dargs(defaults))(**inputs)
+        except Exception as e:        # the first call already fails: it is the observation
+            return {'api': 'run', 'c': job['first'], 'today': today, 'form': form, 'salt': job['salt'], 'chained': False,
+                    'alpha': on == sorted(on), 'out': {'kind': 'exc', 'cls': type(e).__name__},
+                    'calls': [[tag(v) for v in args] for args in _calls0]}
         p1 = project(res1, on, names, 'run', None)
         if isinstance(res1, dictable) and p1['kind'] == 'table':
             data_obj = res1
